@@ -200,6 +200,30 @@ struct Run {
 		}
 		}
 	}
+	// operand pairs whose exact product / quotient / sum is an (n+1)-bit midpoint (a tie) or one ulp of an operand away from it
+	static bool exact_ld(long double v, uint64_t& e) { P p; p = v; if ((long double)p != v || p.isnar() || p.iszero()) return false; e = enc(p); return true; }
+	static void ties(uv::Rng& g) {
+		if constexpr (nbits < 64 && fbits_ + 2 <= 63 && maxscale_ <= 8000) {
+			posit<nbits + 1, es> mid; mid.setbits(((g.next() << 1) | 1) & uv::mask(nbits + 1));
+			if (mid.isnar()) return;
+			long double m = (long double)mid;
+			const uint64_t M = uv::mask(nbits);
+			for (int tries = 0; tries < 8; ++tries) {
+				int k = (int)g.below(2 * (unsigned)maxscale_ + 1) - (int)maxscale_;
+				uint64_t a, b;
+				long double pw = std::ldexp(1.0L, k);
+				if (exact_ld(pw, a)) {
+					if (exact_ld(m / pw, b)) { binary(a, b); binary(a, (b + 1) & M); binary(a, (b - 1) & M); binary(b, a); }        // a*b = midpoint
+					if (exact_ld(m * pw, b)) { binary(b, a); binary((b + 1) & M, a); binary((b - 1) & M, a); }                      // b/a = midpoint
+				}
+			}
+			// sum: U + half an ulp
+			posit<nbits + 1, es> lo = mid; --lo;
+			uint64_t U = (lo.bits() & uv::mask(nbits + 1)) >> 1, h;
+			long double half = m - (long double)lo;
+			if (exact_ld(half, h)) { binary(U, h); binary(h, U); binary((U + 1) & M, (~h + 1) & M); }
+		}
+	}
 	static void random(uint64_t count) {
 		if (g_conv) { conversions(count, false); return; }
 		if (g_order) limits();
@@ -219,6 +243,7 @@ struct Run {
 			}
 			binary(a, b);
 			if ((i & 3) == 0) unary(a);
+			if ((i & 7) == 0 && g_arith) ties(g);
 		}
 	}
 };
